@@ -52,6 +52,57 @@ def check_carry(ctx):
     return K
 
 
+PICKLE_HOOKS = ("__reduce__", "__reduce_ex__", "__getstate__", "__setstate__", "__getnewargs__", "__getnewargs_ex__")
+
+
+def check_pickle(ctx):
+    R = "C05-PICKLE"
+    ctx.rule(R, "the objects shipped to worker processes inside the helper (RVData, JokerPrior) arrive in the state they had: either they define no pickle hook (default "
+                "pickling copies the instance state as is) or a constructor-based __reduce__ hands every stored quantity back - for RVData in particular "
+                "t_ref=False if self.t_ref is None else self.t_ref (a stored None means 'no reference epoch', None given to the constructor means 'earliest time').")
+    from .C15 import tref_preserved
+    for mod, cname in (("thejoker.data", "RVData"), ("thejoker.prior", "JokerPrior")):
+        m = ctx.prog.module(mod)
+        c = m.classes.get(cname)
+        if c is None:
+            raise AnalysisIncomplete(R, cname, "class not found")
+        hooks = {f.name: f for f in c.body if isinstance(f, ast.FunctionDef) and f.name in PICKLE_HOOKS}
+        if not hooks:
+            ctx.ok(R, c, "%s uses default pickling" % cname, "no pickle hook defined: the instance state is copied as is")
+            continue
+        if set(hooks) != {"__reduce__"} or cname != "RVData":
+            ctx.undecided(R, c, "%s pickle hooks" % cname, "custom hooks %s: state equivalence after the round trip is not decided" % sorted(hooks))
+            continue
+        red = hooks["__reduce__"]
+        flow = A.Flow(red)
+        ok = bool(flow.returns)
+        why = ""
+        init = ctx.prog.func(mod, cname + ".__init__", R)
+        params = A.param_names(init)[1:]
+        for v, st in flow.returns:
+            if not (isinstance(v, ast.Tuple) and len(v.elts) >= 2 and canon(v.elts[0]) in ("self.__class__", cname, "type(self)") and isinstance(v.elts[1], ast.Tuple)):
+                ctx.undecided(R, red, "RVData.__reduce__ shape", "returns `%s`, not (class, (constructor arguments))" % A.unparse(v)[:80])
+                ok = None
+                break
+            if len(v.elts) > 2:
+                ctx.undecided(R, red, "RVData.__reduce__ shape", "returns extra state `%s`" % A.unparse(v)[:80])
+                ok = None
+                break
+            bound = dict(zip(params, v.elts[1].elts))
+            want = {"t": ("self.t", "self._t_bmjd"), "rv": ("self.rv",), "rv_err": ("self.rv_err",)}
+            for k, alts in want.items():
+                a = bound.get(k)
+                if a is None or dotted(A.strip_casts(a)) not in alts:
+                    ok, why = False, "constructor argument %s is `%s`" % (k, A.unparse(a)[:40] if a is not None else "missing")
+            has, okf = tref_preserved(bound.get("t_ref"))
+            if ok and not (has and okf):
+                ok = False
+                why = ("t_ref is rebuilt from `%s`: data created with t_ref=False (stored as None) come back in the workers with the earliest time as reference epoch, "
+                       "so every phase and ln-likelihood of a multi-process run differs from the serial one") % (A.unparse(bound["t_ref"])[:50] if "t_ref" in bound else "the default")
+        if ok is not None:
+            ctx.check(R, red, "RVData.__reduce__ rebuilds the same object", ok, why, key="reduce:RVData")
+
+
 def check_fresh(ctx):
     R = "C05-FRESH"
     ctx.rule(R, "the helper is rebuilt for every API call from (data, prior, trend_M): __reduce__ returns (CJokerHelper, (self.data, self.prior, array(self.trend_M))) in "
@@ -255,6 +306,7 @@ def check_order(ctx):
 
 
 def run(ctx):
+    check_pickle(ctx)
     check_carry(ctx)
     check_fresh(ctx)
     check_feed(ctx)
